@@ -92,7 +92,7 @@ def _history(cls_name, seed, nrounds, root, rounds=None) -> Dict[str, Any]:
     names = Names()
     committed: List[Dict[str, Any]] = []
     out: Dict[str, Any] = {"cls": cls_name, "seed": seed, "rounds": [], "violations": [], "states": 0,
-                           "ids": set(), "timeouts": 0}
+                           "ids": set(), "timeouts": 0, "in_points": 0, "in_new": 0, "in_classes": {}}
     model_rounds: List[Any] = []
     c0_rows = None
     for i, rd in enumerate(rec["rounds"]):
@@ -102,17 +102,25 @@ def _history(cls_name, seed, nrounds, root, rounds=None) -> Dict[str, Any]:
         other = "IH5Record" if mfm else "IH5MFRecord"
         per = []
         checked_alone = False
+        after = rd["after"]
+        newest = crashlib.container_names(after)[-1]
+        # what the completed commit links to (ub_exts of the new block, manifest): part of the new state
+        nm = crashlib.open_state(cls_name, after, root, want_view=False)
+        next_meta = nm.get("meta")
         # torn positions around the class boundaries, for the reader of the other class
         tl = [len(crashlib.written_bytes(rd["created"][crashlib.container_names(rd["created"])[-1]][:reclib.UB_SIZE])),
               len(crashlib.written_bytes(rd["after"][crashlib.container_names(rd["after"])[-1]][:reclib.UB_SIZE]))]
+        round_ids = set()
         xk = {1, 2, 12, 13, 14} | {t + dlt for t in tl for dlt in (-2, -1, 0)} | set(range(176, 182)) | set(range(210, 216))
         for cs in states:
             alone = bool(cs.get("boundary")) or not checked_alone
             checked_alone = True
             o = crashlib.oracle(cls_name, cs["state"], committed, rd["view"], root,
-                                check_alone=alone, clean_payload=cs["clean"])
+                                check_alone=alone, clean_payload=cs["clean"], next_meta=next_meta)
             out["states"] += 1
-            out["ids"].add(_state_id(cs["state"]))
+            sid = _state_id(cs["state"])
+            out["ids"].add(sid)
+            round_ids.add(sid)
             if o.get("class") == "timeout":
                 out["timeouts"] += 1
             na = crashlib.newest_abs(cs["state"])
@@ -141,11 +149,35 @@ def _history(cls_name, seed, nrounds, root, rounds=None) -> Dict[str, Any]:
                     "what": o["why"], "label": cs["label"], "round": i, "cls": cls_name, "seed": seed,
                     "ops": [r["ops"] for r in rec["rounds"][:i + 1]],
                     "case": {"cls": cls_name, "state": crashlib.freeze_state(cs["state"]),
-                             "committed": committed, "next_view": rd["view"], "clean": cs["clean"]}})
+                             "committed": committed, "next_view": rd["view"], "clean": cs["clean"],
+                             "next_meta": next_meta}})
+        # ---- crash points inside create_patch / commit_patch as the code performs its writes:
+        # the directory before and after every intercepted file-level write, and every prefix of
+        # every write into a user block (states already judged above are not judged again)
+        evs = rd["ev_create"] + rd["ev_commit"]
+        for cs in crashlib.intercepted_states(evs, newest):
+            sid = _state_id(cs["state"])
+            out["in_points"] += 1
+            if sid in round_ids:
+                continue
+            round_ids.add(sid)
+            out["ids"].add(sid)
+            out["in_new"] += 1
+            o = crashlib.oracle(cls_name, cs["state"], committed, rd["view"], root,
+                                check_alone=not cs.get("torn"), clean_payload=cs["clean"], next_meta=next_meta)
+            out["states"] += 1
+            kk = f"{cls_name}/{o.get('class')}"
+            out["in_classes"][kk] = out["in_classes"].get(kk, 0) + 1
+            if not o["ok"] and len(out["violations"]) < 2:
+                out["violations"].append({
+                    "what": o["why"], "label": cs["label"], "round": i, "cls": cls_name, "seed": seed,
+                    "ops": [r["ops"] for r in rec["rounds"][:i + 1]],
+                    "case": {"cls": cls_name, "state": crashlib.freeze_state(cs["state"]),
+                             "committed": committed, "next_view": rd["view"], "clean": cs["clean"],
+                             "next_meta": next_meta}})
+        sig = [crashlib.write_signature(rd["ev_create"], newest), crashlib.write_signature(rd["ev_commit"], newest)]
         # the container this round committed
-        after = rd["after"]
-        newest = crashlib.container_names(after)[-1]
-        committed = committed + [crashlib._committed_entry(after, newest, rd["view"])]
+        committed = committed + [crashlib._committed_entry(after, newest, rd["view"], next_meta)]
         blocks = rd["blocks"]
         c0_rows = []
         fin = _abs_file(after, newest)
@@ -174,7 +206,7 @@ def _history(cls_name, seed, nrounds, root, rounds=None) -> Dict[str, Any]:
         mrow = [names(fin["rec"]), names(fin["pid"]), names(created_dig), "T1", ws, names(fin["dig"]), "T2",
                 names(fin["mf"][0]) if mfm else 0, names(fin["mf"][1]) if mfm else 0, parts]
         model_rounds.append(mrow)
-        out["rounds"].append({"states": per, "model": True, "enc": encs,
+        out["rounds"].append({"states": per, "model": True, "enc": encs, "sig": sig,
                               "torn": [[crashlib.pieces(blocks["zero"]), crashlib.pieces(blocks["w0"])],
                                        [crashlib.pieces(blocks["old"]), crashlib.pieces(blocks["w1"])]]})
     out["model_case"] = [mfm, c0_rows, model_rounds]
@@ -308,6 +340,14 @@ def run(ctx: vlib.Ctx):
                       found_input=False)
 
 
+def _merge(ds):
+    out: Dict[str, int] = {}
+    for d in ds:
+        for k, v in d.items():
+            out[k] = out.get(k, 0) + v
+    return out
+
+
 def _label_kind(lab: str) -> str:
     return lab.split(":")[0]
 
@@ -380,6 +420,23 @@ def analyse(ctx, res) -> Dict[str, Any]:
             if mc == "x" and real_loads:
                 disagreements.append({"what": "torn block the model rejects is loaded by the real code", "k": k,
                                       "write": wi, "model": mc, "real": s["class"], "cls": res[hi]["cls"]})
+    # ---- the file-level writes the code performs inside create_patch / commit_patch against the
+    # model's micro-steps (coq/Rec/Crash.v round_steps): create_steps = SNew (container file created
+    # and closed), SUb (one user-block write); write_steps end with SPay (close of the HDF5 file);
+    # commit_steps = SUb (ONE user-block rewrite); mf_steps = SMf (sidecar created empty, then filled)
+    sig_bad = 0
+    sig_seen = set()
+    for r in res:
+        want = [["h5close:new", "write:new"],
+                ["h5close:new", "write:new"] + (["open-w:new.mf", "write:new.mf"] if r["cls"] == "IH5MFRecord" else [])]
+        for rd in r["rounds"]:
+            sig_seen.add((r["cls"], json.dumps(rd["sig"])))
+            if rd["sig"] != want:
+                sig_bad += 1
+                if sig_bad == 1:
+                    disagreements.append({"what": "the sequence of file-level writes inside create_patch / commit_patch "
+                                          "is not the model's sequence of micro-steps", "cls": r["cls"],
+                                          "model": want, "real": rd["sig"]})
     # ---- the encoder against every block met
     enc_cases = [e[0] for r in res for rd in r["rounds"] for e in rd.get("enc", [])]
     enc_want = [e[1] for r in res for rd in r["rounds"] for e in rd.get("enc", [])]
@@ -504,7 +561,10 @@ def analyse(ctx, res) -> Dict[str, Any]:
                  "after commit), the freshly created container with a zeroed user block, EVERY prefix length of the "
                  "first user-block write and of the commit's user-block write (synthesised from the real old/new "
                  "blocks), the closed container before the user-block rewrite, the rewritten block without manifest, "
-                 "the manifest cut at 0 / half / length-1; each opened with the real code.  distinct_nontrivial = "
+                 "the manifest cut at 0 / half / length-1; and, by interception of the writes the code performs inside "
+                 "create_patch / commit_patch (open for writing, write(), unlink/rename/replace, h5py close/flush, "
+                 "IH5UserBlock.save, IH5Manifest.save), the directory before and after each of them and every prefix "
+                 "of each write into a user block; each opened with the real code.  distinct_nontrivial = "
                  "distinct directory contents"),
         "exhaustive": False,
         "input_distribution": {"histories": len(res), "timeouts_in_harness": len(bad),
@@ -514,6 +574,10 @@ def analyse(ctx, res) -> Dict[str, Any]:
                                "outcome_by_state_kind": {k: v for k, v in sorted(by_label.items())}},
         "model_compared_states": compared, "model_histories": len(hist_cases),
         "other_class_reader_compared": xcompared,
+        "intercepted_write_points": sum(r["in_points"] for r in res),
+        "intercepted_points_not_among_synthesised": sum(r["in_new"] for r in res),
+        "intercepted_new_point_outcomes": _merge(r["in_classes"] for r in res),
+        "write_sequences_seen": sorted(sig_seen), "write_sequence_mismatches": sig_bad,
         "encoder_blocks_compared": len(enc_cases), "encoder_blocks_equal": len(enc_cases) - enc_bad,
         "unreadable_newest_allowed": unreadable_newest,
         "torn_unclassified": unknown, "new_text_not_tight": not_tight, "commit_shape_side_condition_failed": shape_fail,
@@ -568,7 +632,7 @@ def replay(rep) -> int:
             return 1
     with vlib.workdir("c11r") as root:
         o = crashlib.oracle(c["cls"], crashlib.thaw_state(c["state"]), c["committed"], c["next_view"], str(root),
-                            check_alone=True, clean_payload=c["clean"])
+                            check_alone=True, clean_payload=c["clean"], next_meta=c.get("next_meta"))
     print(json.dumps({k: v for k, v in o.items() if k != "alone"}, default=str)[:600])
     print("recorded directory: " + ("still failing" if not o["ok"] else "no longer failing"))
     if rep.get("ops") and not str(rep.get("label", "")).startswith("SIGKILL"):
